@@ -57,6 +57,25 @@ void harness (void)
               || img->type == SOLID
               || (img->type == BITS && img->bits.width == 1 && img->bits.height == 1
                   && img->common.repeat != PIXMAN_REPEAT_NONE));
+    /* (lead, C08/C04) the transform-class flags are licences for specialised fetchers: each may be set only if the
+     * matrix really has that shape ("the fetched value equals the reference for affine and projective transforms
+     * alike, whichever internal fetcher is used") */
+    {
+        const pixman_transform_t *t = img->common.transform;
+        int affine = t && t->matrix[2][0] == 0 && t->matrix[2][1] == 0 && t->matrix[2][2] == pixman_fixed_1;
+        VH_CHECK ("info.id_transform_flag_only_without_a_matrix", !(f & FAST_PATH_ID_TRANSFORM) || t == 0);
+        VH_CHECK ("info.affine_flag_only_if_last_row_is_0_0_1", !(f & FAST_PATH_AFFINE_TRANSFORM) || t == 0 || affine);
+        VH_CHECK ("info.scale_flag_only_for_diagonal_affine_matrix",
+                  !(f & FAST_PATH_SCALE_TRANSFORM) || (affine && t->matrix[0][1] == 0 && t->matrix[1][0] == 0));
+        VH_CHECK ("info.rotate_flags_only_for_exact_quarter_turns",
+                  (!(f & FAST_PATH_ROTATE_90_TRANSFORM) || (affine && t->matrix[0][0] == 0 && t->matrix[1][1] == 0 && t->matrix[0][1] == -pixman_fixed_1 && t->matrix[1][0] == pixman_fixed_1)) &&
+                  (!(f & FAST_PATH_ROTATE_270_TRANSFORM) || (affine && t->matrix[0][0] == 0 && t->matrix[1][1] == 0 && t->matrix[0][1] == pixman_fixed_1 && t->matrix[1][0] == -pixman_fixed_1)) &&
+                  (!(f & FAST_PATH_ROTATE_180_TRANSFORM) || (affine && t->matrix[0][1] == 0 && t->matrix[1][0] == 0 && t->matrix[0][0] == -pixman_fixed_1 && t->matrix[1][1] == -pixman_fixed_1)));
+        VH_CHECK ("info.unit_flags_describe_the_first_column",
+                  (!(f & FAST_PATH_X_UNIT_POSITIVE) || t == 0 || t->matrix[0][0] > 0) &&
+                  (!(f & FAST_PATH_Y_UNIT_ZERO) || t == 0 || t->matrix[1][0] == 0));
+        VH_CHECK ("info.has_transform_flag_iff_matrix_present", ((f & FAST_PATH_HAS_TRANSFORM) != 0) == (t != 0));
+    }
     /* the analysis only reads the properties */
     ih_props_get (&p1, img, IH_MAXFP, 0);
     VH_CHECK ("info.properties_not_written", ih_props_equal (&p0, &p1));
